@@ -60,12 +60,22 @@ def isNullOrStr : Y → Bool
   | .str _ => true
   | _ => false
 
+/-- scale: absent, `*` or a number -/
+def scaleSchema : Y → Bool
+  | .null => true
+  | .str t => t == star
+  | .num _ => true
+  | _ => false
+
+/-- marker of a pre- or post-indexed access: a boolean or `*` -/
+def triSchema : Y → Bool
+  | .bool _ => true
+  | .str t => t == star
+  | _ => false
+
 def schemaOperand : EOperand → Bool
   | .mem b off i s pre post =>
-    isNullOrStr b && isNullOrStr off && isNullOrStr i &&
-    (match s with | .null => true | .str t => t == star | .num _ => true | _ => false) &&
-    (match pre with | .bool _ => true | .str t => t == star | _ => false) &&
-    (match post with | .bool _ => true | .str t => t == star | _ => false)
+    isNullOrStr b && isNullOrStr off && isNullOrStr i && scaleSchema s && triSchema pre && triSchema post
   | .imm t => (match t with | .str _ => true | _ => false)
   | _ => true
 
